@@ -6,11 +6,16 @@ C10 — The encoder writes a complete, re-readable DDS file of exactly the decla
 * together with C11's invariant a finished encoder has written exactly the layout's data
   length, every surface at its layout offset, in layout order (`C11.finished_file_len`,
   `C11.history`);
-* re-opening: the header round trip is C09, the layout is a function of the header (C02).
+* re-opening (`reopen`): the models of header writer/parser (C09), layout (C02), encoder (C11) and
+  decoder (C08) composed: the bytes of a finished encoder parse back to the same header, hence the
+  same layout, and a decoder that walks all surfaces stops exactly at the last byte written.
 -/
 import DdsModel.Proofs.EncLen
 import DdsModel.Proofs.Layout
 import DdsModel.Theorems.C11
+import DdsModel.Theorems.C09
+import DdsModel.Proofs.Reopen
+import DdsModel.Proofs.HeaderLayout
 namespace Dds.C10
 open Dds
 
@@ -125,7 +130,73 @@ theorem file_len (ops : List EncOp) (e : Enc) (v : C11.EncInv e)
     (C11.run e ops).1.written = C08.total (C11.run e ops).1.iter :=
   C11.finished_file_len _ (C11.history ops e v).1 hf
 
+/-- C10, re-opening, all models composed. For EVERY well-formed header `h` whose format is
+detected (`pi h = some px`) and whose layout `L` is accepted, every history of encoder calls that ends
+with a successful `finish`, any bytes `rest` that follow the header in the file, and every history of
+decoder calls that ends at the end of the surface list:
+* the encoder wrote exactly the layout's data length `specTotal L` (C02's ideal total), which is
+  also what `Header::layout_len`-style arithmetic reports for the header (`layoutLen`);
+* `Header::read` of the written words returns exactly `h` and leaves the data unread — strict, and
+  permissive with the true file length `4 + header + data` — so the re-opened file has the same
+  format (`pi h`) and the same layout (a function of `h` and `px`);
+* the decoder's reader then stands exactly `written` bytes into the data section: the end of the last
+  surface is the end of the file. -/
+theorem reopen (pi : Header → Option PixelInfo) (h : Header) (hwf : h.WF) (px : PixelInfo)
+    (hpx : pi h = some px) (hp : px.WF) (L : DataLayout)
+    (hL : layoutOf h.toLayoutHeader px = some (.ok L)) (hsmall : C02.specTotal L ≤ I64MAX)
+    (mw mh : Nat) (eops : List EncOp) (hf : (C11.run (Enc.new L mw mh) eops).1.finish = .ok)
+    (rest : List Nat) (dops : List DecOp)
+    (hend : C08.abs (C08.run (Dec.new L) dops).1.iter = C08.count (C08.run (Dec.new L) dops).1.iter) :
+    (C11.run (Enc.new L mw mh) eops).1.written = C02.specTotal L ∧
+    h.layoutLen px = some (C02.specTotal L) ∧
+    Header.read pi ParseOptions.strict (h.write pi ++ rest) = .ok (h, rest) ∧
+    Header.read pi (ParseOptions.newPermissive (some (4 + h.byteLen + C02.specTotal L)))
+      (h.write pi ++ rest) = .ok (h, rest) ∧
+    (C08.run (Dec.new L) dops).1.pos = ((C11.run (Enc.new L mw mh) eops).1.written : Int) := by
+  have hr := Header.toLayoutHeader_inRange hwf
+  have hm : 1 ≤ h.toLayoutHeader.mipmapCount := by
+    cases h with
+    | dx9 x => exact hwf.2.2.2.1
+    | dx10 x => exact hwf.2.2.2.1
+  have dinv := C08.new_inv _ px hp hr hm L hL hsmall
+  have einv : C11.EncInv (Enc.new L mw mh) := C11.new_inv L mw mh dinv.fresh
+  have htn := C08.total_new _ px hp hr L hL
+  -- encoder side
+  have hw : (C11.run (Enc.new L mw mh) eops).1.written = C02.specTotal L := by
+    rw [file_len eops _ einv hf, C11.run_total eops _ einv]
+    exact htn
+  -- layout length of the header
+  have hlen : h.layoutLen px = some (C02.specTotal L) := by
+    obtain ⟨hv, _⟩ := C02.layoutOf_valid _ px hp hr L hL
+    obtain ⟨_, h2, _⟩ := C02.flatten_eq_spec L hv
+    unfold Header.layoutLen
+    rw [hL]
+    exact h2
+  obtain ⟨_, _, _, r1, _, r3⟩ := C09.header_roundtrip_words pi h hwf rest
+  -- decoder side
+  obtain ⟨dv, _⟩ := C08.history dops (Dec.new L) dinv
+  have hpos := C08.end_position _ dv hend
+  have hlay : (C08.run (Dec.new L) dops).1.layout = L := C08.run_layout dops (Dec.new L)
+  have htot : C08.total (C08.run (Dec.new L) dops).1.iter = C02.specTotal L := by
+    rw [← dv.total_eq, hlay]; exact htn
+  refine ⟨hw, hlen, r1, r3 px _ hpx hlen, ?_⟩
+  rw [hpos, htot, hw]
+
 /-! ### non-vacuity -/
+
+/-- the hypotheses of `reopen` on a 16x16 BC1 cube map (DX10, 6 faces of 128 bytes): six
+`write_surface` calls then `finish`; six `read_surface` calls reach the end -/
+def reopenEx : Bool :=
+  match layoutOf C09.exHeader.toLayoutHeader (.block 8 4 4) with
+  | some (.ok L) =>
+    let d := (C08.run (Dec.new L) (List.replicate 6 (.read 16 16))).1
+    decide (C02.specTotal L = 768) &&
+    decide ((C11.run (Enc.new L 1 1) (List.replicate 6 (.write 16 16))).1.finish = .ok) &&
+    decide (C08.abs d.iter = C08.count d.iter) && decide (d.pos = 768)
+  | _ => false
+
+/-- the hypotheses of `reopen` are satisfiable -/
+example : C09.exHeader.WF ∧ pixelInfoOf C09.exHeader = some (.block 8 4 4) ∧ reopenEx = true := by decide
 
 example : (chunksRows 5 3 4 2) = [8, 8, 8, 6] ∧ (chunksRows 5 3 4 2).sum = 5 * 3 * 2 := by decide
 example : (chunksSubsample 7 2 4 2 4) = [8, 8, 8, 8] := by decide
